@@ -65,6 +65,12 @@ theorem no_shift_when_safe (ns : List NodeId) (n : NodeId) (hn : n.ext = -1)
     (h : firstLacking ns > maxExt ns) : writtenId ns n = n.id := by
   unfold writtenId baseId; simp [hn, h]
 
+-- non-vacuity of no_shift_when_safe (and external_id_kept): a well-formed graph whose first node lacking an external id has an
+-- internal id above every external id; nothing is shifted
+example : (⟨5, -1⟩ : NodeId).ext = -1 ∧ firstLacking [⟨0, 0⟩, ⟨1, 3⟩, ⟨5, -1⟩] > maxExt [⟨0, 0⟩, ⟨1, 3⟩, ⟨5, -1⟩] ∧
+    WellFormed [⟨0, 0⟩, ⟨1, 3⟩, ⟨5, -1⟩] ∧ writtenIds true [⟨0, 0⟩, ⟨1, 3⟩, ⟨5, -1⟩] = [0, 3, 5] := by
+  refine ⟨by decide, by decide, ⟨by decide, by decide, by decide⟩, by decide⟩
+
 /-- Non-vacuity: a mixed graph (external ids 0, 1, 3 and an added node with internal id 3) is well formed -/
 def mixed : List NodeId := [⟨0, 0⟩, ⟨1, 1⟩, ⟨2, 3⟩, ⟨3, -1⟩]
 example : WellFormed mixed ∧ writtenIds true mixed = [0, 1, 3, 7] := by
